@@ -368,11 +368,11 @@ fn lex_blanks() {
 }
 
 // @verif name=lex_continuation props=C05,C03,C04,C08,C09 tier=quick fns="Lexer::consume_character (backslash)"
-//   bound="dispatch character backslash; continuation: at most 3 arbitrary Unicode characters; every start < 2^31"
+//   bound="dispatch character backslash; continuation: at most 4 arbitrary Unicode characters; every start < 2^31"
 #[kani::proof]
 #[kani::unwind(10)]
 fn lex_continuation() {
-    let mut st = any_stream::<4>();
+    let mut st = any_stream::<5>();
     kani::assume(st.len >= 1);
     st.chars[0] = '\\';
     let (chars, len) = (st.chars, st.len);
@@ -402,9 +402,11 @@ fn lex_continuation() {
                 assert!(matches!(e.error, LexicalErrorType::LineContinuationError));
                 assert!(delta == 1);
             } else {
-                // backslash-newline at the very end of the input
+                // backslash-newline at the very end of the input: exactly the backslash and ONE line break were consumed
                 assert!(matches!(e.error, LexicalErrorType::Eof));
                 assert!(lx.window[0].is_none());
+                let crlf = c1 == Some('\r') && get(&chars, len, 2) == Some('\n');
+                assert!(delta == if crlf { 3 } else { 2 });
             }
         }
     }
